@@ -103,6 +103,8 @@ type RPCSpec struct {
 	UseChanOpt    bool `json:"chan_opt,omitempty"`
 	Creds       map[string]string `json:"creds,omitempty"`
 	NoOutgoingMD bool             `json:"no_out_md,omitempty"`
+	// RawMethod, if set (use "<empty>" for the empty string), replaces the full method path.
+	RawMethod string `json:"raw_method,omitempty"`
 
 	Client      []Op `json:"client"`
 	ClientRecv  []Op `json:"client_recv,omitempty"`
@@ -536,6 +538,8 @@ func (s *svcImpl) runHandlerOps(spec *RPCSpec, actor string, ops []Op, hio *hand
 			}
 		case "signal":
 			env.Signal(op.Name)
+		case "panic":
+			panic("scripted handler panic")
 		case "ident":
 			log.call(rec)
 			rec.Extra = s.readIdentity(hio.ctx, op)
@@ -630,6 +634,16 @@ func (c staticCreds) RequireTransportSecurity() bool { return false }
 
 func methodPath(m string) string { return "/" + svcName + "/" + m }
 
+func (spec *RPCSpec) path() string {
+	switch spec.RawMethod {
+	case "":
+		return methodPath(spec.Method)
+	case "<empty>":
+		return ""
+	}
+	return spec.RawMethod
+}
+
 // StartRPC launches the client actor(s) of spec on channel ch, under parent context.
 func (e *Env) StartRPC(parent context.Context, ch grpc.ClientConnInterface, spec *RPCSpec) {
 	e.mu.Lock()
@@ -691,7 +705,7 @@ func (e *Env) runClientOps(spec *RPCSpec, actor string, ops []Op) {
 			req := &wrapperspb.BytesValue{Value: GenPayload(spec.ID, dirReq, idx, op.N)}
 			var resp wrapperspb.BytesValue
 			log.call(rec)
-			err := spec.ch.Invoke(spec.ctx, methodPath(spec.Method), req, &resp, spec.callOpts()...)
+			err := spec.ch.Invoke(spec.ctx, spec.path(), req, &resp, spec.callOpts()...)
 			if err == nil {
 				checkPayload(rec, spec.ID, dirResp, int(spec.cliRecvd.Add(1))-1, resp.Value)
 				rec.MsgIdx = idx
@@ -713,7 +727,7 @@ func (e *Env) runClientOps(spec *RPCSpec, actor string, ops []Op) {
 				desc = &grpc.StreamDesc{StreamName: spec.Method, ClientStreams: true, ServerStreams: true}
 			}
 			log.call(rec)
-			st, err := spec.ch.NewStream(spec.ctx, desc, methodPath(spec.Method), spec.callOpts()...)
+			st, err := spec.ch.NewStream(spec.ctx, desc, spec.path(), spec.callOpts()...)
 			spec.stream = st
 			log.ret(rec, err)
 			if err != nil {
